@@ -2,7 +2,7 @@
 import lm
 import rules
 from lm import S, strip, cval, atoms
-from props.common import Ctx, has, fmt_facts, guard_retvals, check_guarded_entry
+from props.common import Ctx, has, fmt_facts, guard_retvals, check_guarded_entry, TMR_REMOVERS, TMR_CHARGED
 from props.reset import reset_obligations
 from units import AnalysisBroken
 
@@ -192,7 +192,7 @@ def run(ck, P):
             "forces batch.len = SIZE_MAX only when size batching was off and a timeout is being set; m_mod_set_batch_size stores its argument; "
             "both act only for a live same-thread module", floor=4)
     bt = P.fn("m_mod_set_batch_timeout", "Lib/core/evts.c")
-    dr = [e for e in bt.calls("m_mod_src_deregister_tmr")]
+    dr = [e for e in bt.calls() if e.callee in TMR_REMOVERS]
     stores = [e for e in bt.events() if e.kind == "assign" and S(e.lhs) == "mod->batch.timer.ns"]
     ok = bool(dr) and bool(stores) and all(has(X.facts(bt, e), "mod->batch.timer.ns") and S(e.args[1]) == "&mod->batch.timer" for e in dr) \
         and all(bt.ev_dominates(d, s) or not _reaches(bt, s, d) for d in dr for s in stores) and all(S(s.rhs) == bt.params[1]["name"] for s in stores)
@@ -201,7 +201,7 @@ def run(ck, P):
     okc = bool(dr) and all(_result_checked(bt, d) for d in dr)
     ck.ob("C13.3-SETTERS", bt.site("refused removal changes nothing"), okc,
           "a refused deregistration of the old batch timer (e.g. -EAGAIN) returns before the new timeout is stored" if okc else
-          "the result of m_mod_src_deregister_tmr() is ignored: when it is refused the new timeout is stored anyway, the old timer stays armed under "
+          "the result of the timer deregistration is ignored: when it is refused the new timeout is stored anyway, the old timer stays armed under "
           "a forgotten key")
     ls = [e for e in bt.events() if e.kind == "assign" and S(e.lhs) == "mod->batch.len"]
     okl = bool(ls) and all(has(X.facts(bt, e), "mod->batch.len", False) and has(X.facts(bt, e), bt.params[1]["name"]) and cval(e.rhs) == 2**64 - 1 for e in ls)
